@@ -1483,8 +1483,8 @@ class SimulatedBinaryCrossover(Crossover):
 
         # Make new instance of class derived from Individual
 
-        x1 = p1.copy()
-        x2 = p2.copy()
+        x1 = list(p1)
+        x2 = list(p2)
 
         if random.random() <= self.probability:
             for i, param in enumerate(self.parameters):
